@@ -212,49 +212,57 @@ inductive Out
 
 def callerK : String := "caller"
 
+/-- the closure `f` used by the call: `b.fn[cfg.name]`, lazily created by `cfg.createBackoffFn(b.vars)`, which
+    dereferences `vars` only for the lock-fast name (`none` = nil dereference) -/
+def effFn (b : Backoffer) (cfg : Config) : Option Fn :=
+  match fnLookup b.fns cfg.name with
+  | some f => some f
+  | none =>
+    if isLockFast cfg.name then
+      match b.vars with
+      | some v => some (mkFn v.lockFast cfg.cap cfg.jitter)
+      | none => none
+    else some (mkFn cfg.base cfg.cap cfg.jitter)
+
+/-- `b.maxSleep > 0 && (maxBackoffTimeExceeded || maxExcludedTimeExceeded)` -/
+def overBudget (b : Backoffer) (name : String) : Bool :=
+  let maxBackoffTimeExceeded : Bool := decide (b.totalSleep - b.excludedSleep ≥ b.maxSleep)
+  let maxExcludedTimeExceeded : Bool :=
+    match excl name with
+    | some maxLimit => decide (b.excludedSleep ≥ maxLimit ∧ b.excludedSleep ≥ b.maxSleep)
+    | none => false
+  decide (b.maxSleep > 0) && (maxBackoffTimeExceeded || maxExcludedTimeExceeded)
+
+/-- the accounting after a sleep of `realSleep maxSleepMs sleep` with closure `f` -/
+def sleptB (b : Backoffer) (cfg : Config) (f : Fn) (maxSleepMs sleep : Int) : Backoffer :=
+  let real := realSleep maxSleepMs sleep
+  { b with
+    errorsNum := b.errorsNum + 1                                     -- appendErr
+    configs := b.configs ++ [(cfg.name, cfg.errK)]
+    fns := fnSet b.fns cfg.name { f with attempts := f.attempts + 1, lastSleep := sleep }
+    totalSleep := b.totalSleep + real
+    excludedSleep := if (excl cfg.name).isSome then b.excludedSleep + real else b.excludedSleep
+    sleepMS := b.sleepMS.add cfg.name real
+    times := b.times.add cfg.name 1 }
+
 /-- `BackoffWithCfgAndMaxSleep(cfg, maxSleepMs, err)`; inputs `sleep` and `obsErr` resolve the nondeterminism -/
 def backoff (s : State) (id : Nat) (b : Backoffer) (cfg : Config) (maxSleepMs sleep : Int) (obsErr : String) :
     State × Out :=
-  if isDone s b then (s, .cancelled)
+  if isDone s b then (s, .cancelled)                 -- select <-b.ctx.Done(): return err
   else if b.noop then (s, .noop)
+  else if overBudget b cfg.name then
+    if (exceededErrs b callerK).contains obsErr then (s, .exceeded obsErr) else (s, .badChoice)
   else
-    let maxBackoffTimeExceeded : Bool := decide (b.totalSleep - b.excludedSleep ≥ b.maxSleep)
-    let maxExcludedTimeExceeded : Bool :=
-      match excl cfg.name with
-      | some maxLimit => decide (b.excludedSleep ≥ maxLimit ∧ b.excludedSleep ≥ b.maxSleep)
-      | none => false
-    if b.maxSleep > 0 ∧ (maxBackoffTimeExceeded ∨ maxExcludedTimeExceeded) then
-      if (exceededErrs b callerK).contains obsErr then (s, .exceeded obsErr) else (s, .badChoice)
-    else
-      -- lazy `b.fn[cfg.name]`; createBackoffFn dereferences vars only for the lock-fast name
-      let f? : Option Fn :=
-        match fnLookup b.fns cfg.name with
-        | some f => some f
-        | none =>
-          if isLockFast cfg.name then
-            match b.vars with
-            | some v => some (mkFn v.lockFast cfg.cap cfg.jitter)
-            | none => none
-          else some (mkFn cfg.base cfg.cap cfg.jitter)
-      match f? with
-      | none => (s, .panic)
-      | some f =>
-        if ¬ sleepAllowed f sleep then (s, .badChoice)
-        else
-          let real := realSleep maxSleepMs sleep
-          let f' := { f with attempts := f.attempts + 1, lastSleep := sleep }
-          let b' := { b with
-            errorsNum := b.errorsNum + 1
-            configs := b.configs ++ [(cfg.name, cfg.errK)]
-            fns := fnSet b.fns cfg.name f'
-            totalSleep := b.totalSleep + real
-            excludedSleep := if (excl cfg.name).isSome then b.excludedSleep + real else b.excludedSleep
-            sleepMS := b.sleepMS.add cfg.name real
-            times := b.times.add cfg.name 1 }
-          let s' := s.setB id b'
-          match checkKilled s b' with
-          | some sig => (s', .killedAfter sig real f.base f.attempts)
-          | none => (s', .slept real f.base f.attempts)
+    match effFn b cfg with
+    | none => (s, .panic)
+    | some f =>
+      if sleepAllowed f sleep then
+        let b' := sleptB b cfg f maxSleepMs sleep
+        -- CheckKilled after the accounting
+        match checkKilled s b' with
+        | some sig => (s.setB id b', .killedAfter sig (realSleep maxSleepMs sleep) f.base f.attempts)
+        | none => (s.setB id b', .slept (realSleep maxSleepMs sleep) f.base f.attempts)
+      else (s, .badChoice)
 
 /-- proper ancestors of a back-offer whose `parent` field is `p`, nearest first (`fuel` ≥ arena size suffices,
     see `Proofs/Backoff.lean: ancestors_fuel`) -/
